@@ -394,6 +394,71 @@ def shadow_pass(ctx):
                 return
 
 
+def shadow_add_pass(ctx):
+    """the other direction: instances of a class (and of a subclass of it) have used an inherited feature; then the class
+    declares a feature of the same name, another type, another multiplicity (append / insert / extend / whole assignment):
+    old and new instances alike expose the feature the class declares now — its default, its multiplicity, its type"""
+    from pyecore import ecore as E
+    for k in range(24 if ctx.quick() else 300):
+        rng = common.sub_rng(ctx.seed, 'C12', 'shadow-add', k)
+        A = E.EClass('A')
+        ax = E.EAttribute('x', E.EString, upper=-1 if k % 4 == 3 else 1)
+        A.eStructuralFeatures.append(ax)
+        Mid = E.EClass('Mid', superclass=(A,))
+        B = E.EClass('B', superclass=(Mid,) if k % 2 else (A,))
+        Sub = E.EClass('Sub', superclass=(B,))
+        touched, touched_sub, fresh = B(), Sub(), B()
+        for o in (touched, touched_sub):
+            if ax.many:
+                o.x.append('hello')
+            else:
+                o.x = 'hello'
+        many = k % 3 == 0
+        bx = E.EAttribute('x', E.EInt, upper=-1 if many else 1, default_value=None if many else rng.choice([0, 4]))
+        how = rng.choice(['append', 'insert', 'extend', 'assign'])
+        if how == 'append':
+            B.eStructuralFeatures.append(bx)
+        elif how == 'insert':
+            B.eStructuralFeatures.insert(0, bx)
+        elif how == 'extend':
+            B.eStructuralFeatures.extend([E.EAttribute('other', E.EString), bx])
+        else:
+            B.eStructuralFeatures = [bx]
+        ctx.evaluations += 1
+        ctx.nontriv(('shadow-add', k))
+        ctx.count(f'shadow-add/{how}')
+        for who, o in (('an instance that had used the inherited feature', touched), ('an instance of a subclass that had used it', touched_sub),
+                       ('an untouched instance', fresh), ('a new instance', B())):
+            problem = None
+            try:
+                got = o.x
+                if many:
+                    if not hasattr(got, 'append') or len(got):
+                        problem = f'reads {list(got) if hasattr(got, "append") else got!r} where the feature declared now starts as an empty collection'
+                    else:
+                        try:
+                            got.append('text')
+                            problem = 'accepts a str where the feature declared now is an EInt'
+                        except E.BadValueError:
+                            got.append(7)
+                elif got != bx.default_value or isinstance(got, str) or hasattr(got, 'append'):
+                    problem = f'reads {got!r}, the default of the feature declared now is {bx.default_value!r}'
+                else:
+                    try:
+                        o.x = 'text'
+                        problem = 'accepts a str where the feature declared now is an EInt'
+                    except E.BadValueError:
+                        o.x = 7
+                        if o.x != 7:
+                            problem = 'does not keep an int written to the feature declared now'
+            except Exception as e:
+                problem = f'raised {type(e).__name__}: {e}'
+            if problem:
+                ctx.violate({'clause': 'shadow', 'edit': 'add'}, f'a class declared ({how}) a feature x ({"many" if many else "single"} EInt) named like an inherited '
+                            f'{"many" if ax.many else "single"} EString x that instances had used: {who} {problem}', {'shadow_add': k})
+                return
+
+
 def below_static_pass(ctx):
     """dynamic classes below a *static* one (directly, or through another dynamic class; the supertype given at construction
     or appended later): an instance's eClass is the EClass it was made from, and features added to the dynamic class
@@ -453,6 +518,7 @@ def run(ctx):
     construction_pass(ctx)
     below_static_pass(ctx)
     shadow_pass(ctx)
+    shadow_add_pass(ctx)
     n = 800 if ctx.quick() else 6000
     ned = 14 if ctx.quick() else 20
     ctx.rule = (f'{n} edit sequences (<= {ned}) over graphs of 2-4 dynamic classes: add/remove attribute or reference, add/remove '
